@@ -1910,6 +1910,12 @@ func (bc *Blockchain) AddBlock(block *block.Block) error {
 				bc.log.Warn(fmt.Sprintf("transaction %s failed to verify: %s", tx.Hash().StringLE(), err))
 			}
 		}
+		// The scratch pool is used to find out which mempooled transactions
+		// became stale, it can't be used for that if it lacks some of the
+		// block's transactions (the DAO is consulted then).
+		if mp.Count() != len(block.Transactions) {
+			mp = nil
+		}
 	}
 	return bc.storeBlock(block, mp)
 }
